@@ -69,6 +69,22 @@ def cases(tier: str, seed: int) -> list[dict]:
             out.append({"kind": kind, "dim": dim, "et": et, "nops": nops})
         for kind, dim, et in [("phasefield", 2, "TRI3"), ("hyperelastic", 2, "TRI3"), ("inelastic", 2, "QUAD4"), ("hyperelastic", 3, "TETRA4")]:
             out.append({"kind": kind, "dim": dim, "et": et, "nops": max(3, nops // 2)})
+    # scripted histories: sequences in which a value is consumed (assembled, cached), then changed, then consumed again
+    scripts = [
+        ("hyperelastic", 2, "TRI3", ["algo:hyper", "obs", "param:thickness", "obs", "rho", "obs", "param:thickness", "param:K", "obs", "motion", "obs"]),
+        ("hyperelastic", 2, "QUAD4", ["algo:hyper", "obs", "rho", "obs", "param:thickness", "obs"]),
+        ("elastic", 2, "TRI3", ["param:array", "obs", "param:array", "obs", "motion", "obs", "param:array", "obs", "algo:hyper", "obs", "param:array", "obs"]),
+        ("elastic", 3, "TETRA4", ["param:array", "obs", "param:array", "obs", "param:array", "coord", "obs"]),
+        ("thermal", 2, "QUAD4", ["algo", "param:array", "obs", "param:array", "obs", "motion", "param:array", "obs", "param:array", "obs"]),
+        ("thermal", 1, "SEG3", ["param:array", "obs", "param:array", "obs", "algo", "param:array", "obs"]),
+        ("elastic", 2, "QUAD8", ["algo:hyper", "obs", "param:thickness", "obs", "rho", "obs", "param:thickness", "obs", "param:ps", "obs"]),
+        ("thermal", 2, "TRI3", ["algo", "obs", "param:thickness", "obs", "rho", "obs", "param:thickness", "obs"]),
+        ("phasefield", 2, "TRI3", ["obs", "param:E", "obs", "param:split", "obs", "param:E", "param:regu", "obs"]),
+        ("inelastic", 2, "QUAD4", ["obs", "param:E", "obs", "param:v", "obs", "motion", "param:E", "obs"]),
+    ]
+    for r in range(2 if tier == "quick" else 12):
+        for kind, dim, et, sc in scripts:
+            out.append({"kind": kind, "dim": dim, "et": et, "nops": len(sc), "script": sc})
     for i, c in enumerate(out):
         c["id"] = f"C14-{i:05d}-{c['kind']}-{c['et']}"
         c["index"] = i
@@ -80,6 +96,8 @@ def cases(tier: str, seed: int) -> list[dict]:
 # ------------------------------------------------------------------------------------------
 def model_from(cfg):
     k, p, dim = cfg["kind"], cfg["model"], cfg["dim"]
+    # array-valued parameters: the twin gets its own copy of the content now held
+    p = {n: (v.copy() if isinstance(v, np.ndarray) and v.dtype.kind == "f" and n not in ("a1", "a2") else v) for n, v in p.items()}
     if k in ("elastic", "elastic-shared"):
         return Models.Elastic.Isotropic(dim, E=p["E"], v=p["v"], planeStress=p["ps"], thickness=p["thickness"])
     if k == "elastic-aniso":
@@ -91,7 +109,7 @@ def model_from(cfg):
         mat = Models.Elastic.Isotropic(dim, E=p["E"], v=p["v"], planeStress=False, thickness=p["thickness"])
         return Models.PhaseField(mat, p["split"], p["regu"], p["Gc"], p["l0"])
     if k == "hyperelastic":
-        return Models.HyperElastic.NeoHookean(dim, K=p["K"])
+        return Models.HyperElastic.NeoHookean(dim, K=p["K"], thickness=p.get("thickness", 1.0))
     if k == "inelastic":
         el = Models.Elastic.Isotropic(3, E=p["E"], v=p["v"])
         from EasyFEA.Models import InElastic as IE
@@ -215,7 +233,7 @@ def initial_cfg(case, rng):
     elif kind == "phasefield":
         cfg["model"] = {"E": 210.0, "v": 0.3, "thickness": 1.0, "split": "Miehe", "regu": "AT2", "Gc": 2.7, "l0": 0.3}
     elif kind == "hyperelastic":
-        cfg["model"] = {"K": 50.0}
+        cfg["model"] = {"K": 50.0, "thickness": 1.0}
     elif kind == "inelastic":
         cfg["model"] = {"E": 1000.0, "v": 0.3, "sigY": 5.0, "H": 100.0, "thickness": 1.0}
     return cfg
@@ -315,6 +333,17 @@ def run_case(case: dict, ctx: Ctx) -> None:
                         s.Get_K_C_M_F(s.ProblemTypes.elastic)
                         s.Get_K_C_M_F(s.ProblemTypes.damage)
                 else:
+                    if kind == "hyperelastic" and cfg["algo"][0] == "hyper":
+                        # the assembled operators of the zero state themselves (the mass matrix enters a step only through dt^-2)
+                        for s_ in (live, twin):
+                            s_._Simu__Solver_Set_Newton_Raphson_current_solution(np.zeros(s_.mesh.Nn * dim))
+                            s_.Need_Update()
+                        L, T = live.Get_K_C_M_F(live.problemType), twin.Get_K_C_M_F(twin.problemType)
+                        for nm, a, b in zip("KCM", L, T):
+                            a, b = a.toarray(), b.toarray()
+                            if np.abs(b).max() > 0:
+                                ctx.check("twin-matrices", float(np.abs(a - b).max() / np.abs(b).max()) if a.shape == b.shape else np.inf, 1e-11, k + "/" + nm,
+                                          history=list(history))
                     ul, ut = live.Solve(), twin.Solve()
                     judge(relerr(ul, ut), 1e-7, k + "/solution", lambda t: relerr(t.Solve(), ut), (ul, ut))
                     live._Set_solutions(live.problemType, np.zeros_like(ul), np.zeros_like(ul), np.zeros_like(ul))
@@ -344,7 +373,7 @@ def run_case(case: dict, ctx: Ctx) -> None:
         mutated_since_obs = False
 
     # ---- operation menu -------------------------------------------------------------------------
-    def op_param():
+    def op_param(force=None):
         p = cfg["model"]
         if kind in ("elastic", "elastic-shared", "inelastic"):
             name = str(rng.choice(["E", "v"] + (["ps", "thickness"] if kind != "inelastic" and dim == 2 else [])))
@@ -357,9 +386,33 @@ def run_case(case: dict, ctx: Ctx) -> None:
         elif kind == "phasefield":
             name = str(rng.choice(["E", "Gc", "l0", "split", "regu"]))
         elif kind == "hyperelastic":
-            name = "K"
+            name = str(rng.choice(["K"] + (["thickness"] if dim == 2 else [])))
         else:
             name = "thickness"
+        if force == "array":
+            name = {"elastic": "E", "thermal": str(rng.choice(["k", "c"]))}[kind]
+        elif force is not None:
+            name = force
+        if kind in ("elastic", "thermal") and name in ("E", "k", "c") and (rng.random() < 0.35 or force == "array") and force in (None, "array") \
+                and len(live.mesh.Get_list_groupElem()) == 1:
+            # array-valued parameter: one value per element, held in an array the caller keeps: first assignment, then
+            # updates written into that same array and assigned again, or a new array with the same content followed by a change
+            Ne_ = live.mesh.Ne
+            cur = p[name]
+            if not isinstance(cur, np.ndarray):
+                arr = cur * rng.uniform(0.8, 1.25, Ne_)
+                mode = "array-first"
+            elif rng.random() < 0.6:
+                arr = cur
+                arr *= rng.uniform(0.7, 1.4, Ne_)
+                mode = "array-same-object"
+            else:
+                setattr(model, name, cur.copy())
+                arr = cur * rng.uniform(0.7, 1.4, Ne_)
+                mode = "array-equal-then-new"
+            p[name] = arr
+            setattr(model, name, arr)
+            return f"param:{name}:{mode}"
         if name == "ps":
             p["ps"] = not p["ps"]
             model.planeStress = p["ps"]
@@ -372,6 +425,8 @@ def run_case(case: dict, ctx: Ctx) -> None:
         else:
             f = float(rng.uniform(0.7, 1.4)) if rng.random() < 0.7 else 1 + 10 ** float(rng.uniform(-7, -4))
             new = p[name] * f
+            if isinstance(new, np.ndarray) and rng.random() < 0.5:
+                new = float(new.mean())        # back to a homogeneous value
             if name == "v":
                 new = float(np.clip(new, 0.05, 0.45))
             p[name] = new
@@ -434,6 +489,11 @@ def run_case(case: dict, ctx: Ctx) -> None:
         cfg["meshes"][i] = gm.mesh_arrays(m)
         cfg["imesh"] = i
         live_meshes[i] = m
+        for n_, v_ in list(cfg["model"].items()):
+            if isinstance(v_, np.ndarray) and n_ in ("E", "k", "c"):
+                # per-element parameters belong to the mesh they were written for: a homogeneous value comes with the new mesh
+                cfg["model"][n_] = float(v_.mean())
+                setattr(model, n_, cfg["model"][n_])
         if np.ndim(cfg["rho"]):
             # a per-element density belongs to the mesh it was written for: the user gives a new one with the new mesh
             cfg["rho"] = float(rng.uniform(0.5, 3))
@@ -450,8 +510,11 @@ def run_case(case: dict, ctx: Ctx) -> None:
         replay_bcs(live, cfg["bcs"])
         return "Bc_Init+re-add"
 
-    def op_algo():
-        if kind == "thermal" or (kind == "weakforms" and rng.random() < 0.5):
+    def op_algo(force=None):
+        if force == "hyper":
+            al = str(rng.choice(["newmark", "midpoint", "hht", "euler_implicit"]))
+            cfg["algo"] = ("hyper", al, float(rng.uniform(0.02, 0.2)), 0.25, 0.5, float(rng.uniform(0, 0.3)) if al == "hht" else 0.5)
+        elif kind == "thermal" or (kind == "weakforms" and rng.random() < 0.5):
             cfg["algo"] = ("parabolic", float(rng.uniform(0.05, 0.5)), float(rng.choice([0.5, 1.0, 0.7])))
         elif rng.random() < 0.25:
             cfg["algo"] = ("elliptic",)
@@ -480,6 +543,12 @@ def run_case(case: dict, ctx: Ctx) -> None:
         if np.ndim(cfg["rho"]) and im != cfg["imesh"]:
             cfg["rho"] = float(rng.uniform(0.5, 3))
             live.rho = cfg["rho"]
+        if im != cfg["imesh"]:
+            for n_, v_ in list(cfg["model"].items()):
+                if isinstance(v_, np.ndarray) and n_ in ("E", "k", "c"):
+                    # per-element parameters belong to the mesh they were written for
+                    cfg["model"][n_] = float(v_.mean())
+                    setattr(model, n_, cfg["model"][n_])
         live.Set_Iter(it)
         u, v, a_ = st
         # what a restore brings back depends on what the iteration stored (speed / accel only for the hyperbolic family,
@@ -540,14 +609,28 @@ def run_case(case: dict, ctx: Ctx) -> None:
             with quiet():
                 history.append("build")
                 observe("solve" if kind not in NONLINEAR else "nl")
-                for step in range(case["nops"]):
-                    op = menu[int(rng.integers(len(menu)))]
+                script = list(case.get("script", []))
+                named = {"param": op_param, "algo": op_algo, "rho": op_rho, "motion": op_motion, "bcs": op_bcs, "save": op_save, "set_iter": op_set_iter,
+                         "mesh": op_mesh_replace, "coord": lambda: op_coord("mesh")}
+                for step in range(len(script) if script else case["nops"]):
+                    if script:
+                        tok = script[step]
+                        if tok == "obs":
+                            if mutated_since_obs:
+                                observe("solve" if kind not in NONLINEAR else "nl")
+                            continue
+                        head, _, arg = tok.partition(":")
+                        op = (lambda h=head, a=arg: named[h](a)) if arg else named[head]
+                    else:
+                        op = menu[int(rng.integers(len(menu)))]
                     name = op()
                     history.append(name)
                     since.append(name.split("(")[0].split(":")[0] + (":" + name.split(":")[1] if name.startswith("param:") else ""))
                     ops_seen.add(name.split(":")[0].split("(")[0])
                     ctx.event("op:" + name.split(":")[0].split("(")[0])
                     mutated_since_obs = True
+                    if script:
+                        continue
                     if rng.random() < 0.6 or step == case["nops"] - 1:
                         observe("solve" if (kind not in NONLINEAR and rng.random() < 0.6) else ("nl" if kind in NONLINEAR else "matrices"))
     except StopSequence:
